@@ -313,7 +313,8 @@ fn iz_spec() -> BoxedStrategy<IzSpec> {
             });
             // Info-ZIP itself fails on `-0 -Z bzip2` (bzlib has no level 0)
             // and on `-fd -Z bzip2` ("can't rewrite method")
-            IzSpec { files, fd, fz, level: if bzip2 && level == 0 { 1 } else { level }, bzip2: bzip2 && !fd }
+            // and `-fd -fz` together yields an archive without ZIP64 end records that unzip itself rejects
+            IzSpec { files, fd, fz: fz && !fd, level: if bzip2 && level == 0 { 1 } else { level }, bzip2: bzip2 && !fd }
         })
         .boxed()
 }
